@@ -314,7 +314,7 @@ def rule5(ctx, rep):
         # every other writer of the work sets that is thread-reachable must be in the accepted table
         for op in wsa.all_ops(prog):
             if op.func.qname in thr and (op.op in wsa.GROW or op.op in wsa.SHRINK or op.op == 'rebind'):
-                if op.func.qname not in accepted:
+                if op.func.qname not in accepted and not shared.only_called_from(cg, op.func.qname, set(accepted)):
                     r.fail(f'{op.func.qname}:thread-writer', op.where, f'{op.func.qname} mutates scheduler state and may run on a pool thread')
         r.note('accepted thread-side writers: ' + '; '.join(f'{k} ({v})' for k, v in accepted.items()))
 
